@@ -408,7 +408,7 @@ def _check_bounds(ddf, exts, idxs, what, sig):
     for col, e in exts.items():
         if col not in pb:
             raise Bad(f"bounds-missing@{what}", f"{what}: no stored bounds for column {col}")
-        rows = [tuple(float(v) for v in row) for row in
+        rows = [tuple(float("nan") if v is None else float(v) for v in row) for row in
                 pb[col][["x0", "y0", "x1", "y1"]].values.tolist()]
         want = [e[i] for i in idxs]
         if len(rows) != len(want) or any(not models.bounds_equal(a, b)
